@@ -4,15 +4,21 @@ import (
 	"verif/checks/c01"
 	"verif/checks/c02"
 	"verif/checks/c03"
+	"verif/checks/c04"
 	"verif/checks/c06"
 	"verif/checks/c07"
 	"verif/checks/c08"
+	"verif/checks/c09"
 	"verif/checks/c11"
 	"verif/checks/c12"
+	"verif/checks/c16"
 	"verif/checks/c17"
 )
 
 func init() {
+	register("C16", "exploration", c16.Run)
+	register("C09", "exploration", c09.Run)
+	register("C04", "exploration", c04.Run)
 	register("C12", "model_checking", c12.Run)
 	register("C08", "exploration", c08.Run)
 	register("C17", "exploration", c17.Run)
